@@ -118,7 +118,7 @@ class Ref:
         elif k == "rename":
             m = dict(map(tuple, op["m"]))
             self.E = {(t, m[l], h) for t, l, h in self.E}
-        elif k == "copy":
+        elif k in ("copy", "hasedge"):
             pass
         else:
             raise ValueError(k)
@@ -166,6 +166,9 @@ class Ref:
             m = dict(map(tuple, op["m"]))
             used = {l for _, l, _ in self.E}
             return used <= set(m) and len({m[l] for l in used}) == len(used)
+        if k == "hasedge":
+            # a read accessor; on a non-edge it writes an empty entry (defaultdict) — outside the property's operations
+            return any(t == op["t"] and h == op["h"] for t, _, h in self.E)
         return True
 
     # ---- language
@@ -244,6 +247,8 @@ def apply_op(A, op):
         A.rename_generators(dict(map(tuple, op["m"])), inplace=True)
     elif k == "copy":
         A = copy.deepcopy(A)
+    elif k == "hasedge":
+        A.has_edge(op["t"], op["h"])
     else:
         raise ValueError(k)
     return A
@@ -303,7 +308,7 @@ def universe(init):
 def rand_op(rng, ref, vs, ls, p_invalid=0.0, fresh=True):
     """one mostly-valid operation for the current reference state"""
     for _ in range(50):
-        k = rng.choice(["addv", "adde", "adde", "adde", "addel", "addel", "delv", "delvs", "recurrent", "rename", "copy"])
+        k = rng.choice(["addv", "adde", "adde", "adde", "addel", "addel", "delv", "delvs", "recurrent", "rename", "copy", "hasedge"])
         if k == "addv":
             op = {"k": k, "vs": [rng.choice(vs) for _ in range(rng.choice([1, 1, 2, 3]))]}
         elif k == "adde":
@@ -320,8 +325,15 @@ def rand_op(rng, ref, vs, ls, p_invalid=0.0, fresh=True):
         elif k == "rename":
             perm = ls[:]
             rng.shuffle(perm)
-            tgt = perm if (rng.random() < 0.6 or not fresh) else [l.upper() + "x" for l in ls]
+            tgt = perm if (rng.random() < 0.6 or not fresh) else [l + "x" for l in ls]
             op = {"k": k, "m": [[a, b] for a, b in zip(ls, tgt)]}
+        elif k == "hasedge":
+            es = sorted(ref.E, key=repr)
+            if es and rng.random() < 0.7:
+                e = rng.choice(es)
+                op = {"k": k, "t": e[0], "h": e[2]}
+            else:
+                op = {"k": k, "t": rng.choice(vs), "h": rng.choice(vs)}
         else:
             op = {"k": k}
         if ref.valid(op):
@@ -344,7 +356,7 @@ def rand_history(rng, maxlen=40, p_invalid=0.0, fresh=True):
         ref.apply(op)
         if op["k"] == "rename":
             m = dict(map(tuple, op["m"]))
-            ls = [m.get(l, l) for l in ls]
+            ls = list(dict.fromkeys(m.get(l, l) for l in ls))     # a dict has no repeated keys
     return {"init": init, "ops": ops}
 
 
@@ -356,6 +368,7 @@ def small_ops(vs, ls):
     ops += [{"k": "addel", "es": [[t, h, []]], "ir": True} for t in vs[:2] for h in vs[:2]]
     ops += [{"k": "delv", "v": v} for v in vs]
     ops += [{"k": "recurrent"}, {"k": "copy"}]
+    ops += [{"k": "hasedge", "t": t, "h": h} for t in vs for h in vs]
     ops += [{"k": "rename", "m": [[a, b] for a, b in zip(ls, ls[::-1])]}]
     return ops
 
